@@ -13,8 +13,17 @@ import (
 	"verif/harness/report"
 )
 
+// reportAs is the property under whose check these drivers run (C18, or C03 /
+// C05 / C08 when cmd/driver runs the follower driver as part of their check).
+func reportAs() string {
+	if p := os.Getenv("VERIF_REPORT_AS"); p != "" {
+		return p
+	}
+	return "C18"
+}
+
 func v18(t interface{ Fatalf(string, ...any) }, sig, format string, a ...any) {
-	t.Fatalf("VIOLATION[C18/%s sig=%s step=0]: %s", sig, "c18."+sig, fmt.Sprintf(format, a...))
+	t.Fatalf("VIOLATION[%s/%s sig=%s step=0]: %s", reportAs(), sig, "c18."+sig, fmt.Sprintf(format, a...))
 }
 
 // msModel mirrors a MemoryStorage: the abstract log plus snapshot metadata.
